@@ -205,6 +205,9 @@ func init() {
 			// the same on the library's real file-backed storages (crashes at quiescent points)
 			reg(&explore.Suite{Name: fmt.Sprintf("filecrash%d-d%d", n, d), Cfg: sim.Config{Voters: n, FileStore: true},
 				Budget: sim.Budget{Timeouts: 3, Elapses: 3, Beats: 1, Writes: 2, Reorders: -1, Splits: 1, Crashes: 1, Restarts: 2, Deviations: d}})
+			// ... with crashes armed at mutating file-system calls (inside storage operations)
+			reg(&explore.Suite{Name: fmt.Sprintf("filearm%d-d%d", n, d), Cfg: sim.Config{Voters: n, FileStore: true, ArmDepth: 4},
+				Budget: sim.Budget{Timeouts: 3, Elapses: 3, Beats: 1, Writes: 2, Reorders: -1, Splits: 1, Crashes: 1, Arms: 1, Restarts: 2, Deviations: d}})
 			// faults of the network: drops, duplicates, late replies
 			reg(&explore.Suite{Name: fmt.Sprintf("net%d-d%d", n, d), Cfg: sim.Config{Voters: n},
 				Budget: sim.Budget{Timeouts: 2, Elapses: 2, Beats: 2, Writes: 2, Reorders: -1, Splits: 3, Drops: 1, DropReplies: 1, Dups: 2, Deviations: d}})
@@ -489,6 +492,10 @@ func init() {
 	for d := 0; d <= 6; d++ {
 		reg(&explore.Suite{Name: fmt.Sprintf("filesnap3-d%d", d), Cfg: sim.Config{Voters: 3, SnapAt: 2, FileStore: true}, Seed: seedLeader3, Monitors: snapMonitors,
 			Budget: sim.Budget{Timeouts: 2, Elapses: 2, Beats: 2, Writes: 3, Cuts: 2, Crashes: 1, Restarts: 1, Reorders: -1, Splits: 1, Deviations: d}})
+	}
+	for d := 0; d <= 6; d++ {
+		reg(&explore.Suite{Name: fmt.Sprintf("filearmsnap3-d%d", d), Cfg: sim.Config{Voters: 3, SnapAt: 2, FileStore: true, ArmDepth: 6}, Seed: seedLeader3, Monitors: snapMonitors,
+			Budget: sim.Budget{Timeouts: 2, Elapses: 2, Beats: 2, Writes: 3, Cuts: 1, Crashes: 1, Arms: 1, Restarts: 1, Reorders: -1, Splits: 1, Deviations: d}})
 	}
 	// snapshots on (threshold 2): local snapshots, compaction, installation
 	for d := 0; d <= 6; d++ {
